@@ -10,6 +10,7 @@ import (
 	"fmt"
 	"io"
 	"net"
+	"os"
 	"sync"
 	"sync/atomic"
 	"testing"
@@ -567,6 +568,134 @@ func vh10Fids(t *testing.T, o *vhOut, id int, script []string) {
 	o.Emit(map[string]interface{}{"kind": "fids", "id": id, "events": evs})
 }
 
+// ---- (f) a frame the receiver rejects with a connection error, then later calls ----
+
+// vh10Queue buffers the server -> client direction like a socket: the server never blocks writing.
+type vh10Queue struct {
+	mu   sync.Mutex
+	cond *sync.Cond
+	b    []byte
+	eof  bool
+}
+
+func (q *vh10Queue) Write(p []byte) (int, error) {
+	q.mu.Lock()
+	q.b = append(q.b, p...)
+	q.cond.Broadcast()
+	q.mu.Unlock()
+	return len(p), nil
+}
+
+func (q *vh10Queue) Read(p []byte) (int, error) {
+	q.mu.Lock()
+	defer q.mu.Unlock()
+	for len(q.b) == 0 && !q.eof {
+		q.cond.Wait()
+	}
+	if len(q.b) == 0 {
+		return 0, io.EOF
+	}
+	n := copy(p, q.b)
+	q.b = q.b[n:]
+	return n, nil
+}
+
+type vh10QConn struct {
+	net.Conn
+	q *vh10Queue
+}
+
+func (c *vh10QConn) Read(p []byte) (int, error) { return c.q.Read(p) }
+func (c *vh10QConn) Close() error {
+	c.q.mu.Lock()
+	c.q.eof = true
+	c.q.cond.Broadcast()
+	c.q.mu.Unlock()
+	return c.Conn.Close()
+}
+
+// vh10Desync: call A is answered with a complete frame one byte longer than msize whose payload looks like
+// frames; B and C are ordinary calls that the server answers correctly.  Run only when the source remembers
+// the receiver's connection error (ClientGen.recv_error_marks_dead; see fixes/C10-recv-error-not-remembered.md):
+// then B and C must fail at once.  Without it C hangs (recorded finding).
+func vh10Desync(t *testing.T, o *vhOut, id int) {
+	cc, sc := net.Pipe()
+	defer sc.Close()
+	q := &vh10Queue{}
+	q.cond = sync.NewCond(&q.mu)
+	reqs := make(chan uint16, 16)
+	go func() {
+		for {
+			typ, tg, body, err := vhReadFrame(sc, 30*time.Second)
+			if err != nil {
+				return
+			}
+			switch msgType(typ) {
+			case msgTversion:
+				send(ulog.Null, q, tag(tg), &rversion{MSize: binary.LittleEndian.Uint32(body), Version: "9P2000.L.Google.7"})
+			case msgTattach:
+				send(ulog.Null, q, tag(tg), &rattach{})
+			default:
+				reqs <- tg
+			}
+		}
+	}()
+	conn := &vh10QConn{Conn: cc, q: q}
+	defer conn.Close()
+	cl, err := NewClient(conn)
+	if err != nil {
+		t.Fatalf("C10 desync NewClient: %v", err)
+	}
+	f, err := cl.Attach("")
+	if err != nil {
+		t.Fatalf("C10 desync attach: %v", err)
+	}
+	msize := cl.messageSize
+	call := func() chan string {
+		ch := make(chan string, 1)
+		go func() { ch <- vh10Guard(f.FSync) }()
+		return ch
+	}
+	outcome := func(ch chan string) string {
+		select {
+		case s := <-ch:
+			return s
+		case <-time.After(4 * time.Second):
+			return "hang"
+		}
+	}
+	a := call()
+	ta := <-reqs
+	frame := make([]byte, msize+1)
+	binary.LittleEndian.PutUint32(frame, msize+1)
+	frame[4] = byte(msgRread)
+	binary.LittleEndian.PutUint16(frame[5:], ta)
+	inner := frame[7:]
+	binary.LittleEndian.PutUint32(inner, msize-100)
+	inner[4] = byte(msgRfsync)
+	binary.LittleEndian.PutUint16(inner[5:], 0x7777)
+	left := inner[msize-100:]
+	binary.LittleEndian.PutUint32(left, 5000)
+	left[4] = byte(msgRfsync)
+	binary.LittleEndian.PutUint16(left[5:], 0x7778)
+	q.Write(frame)
+	out := []string{outcome(a)}
+	for k := 0; k < 2; k++ {
+		ch := call()
+		select {
+		case tg := <-reqs:
+			send(ulog.Null, q, tag(tg), &rfsync{})
+			out = append(out, outcome(ch))
+		case s := <-ch:
+			out = append(out, s)
+		case <-time.After(4 * time.Second):
+			out = append(out, "hang")
+		}
+	}
+	o.Emit(map[string]interface{}{"kind": "trace", "sub": "later-calls-after-rejected-frame", "id": id, "n": 3, "outcomes": out,
+		"trace": []string{"AStart 0 1 0", "ASendOk 0", "AWaitToken 0", "ARecvErr 0", "AWaitDone 0", "AStart 1 1 0", "ASendFail 1", "AStart 2 1 2", "ASendFail 2"}})
+}
+
 func vh10Perms(k int) [][]int {
 	if k == 0 {
 		return [][]int{{}}
@@ -698,6 +827,10 @@ func TestVerifC10(t *testing.T) {
 		vh10Race(t, o, id)
 		id++
 		vh10Early(t, o, id)
+		id++
+	}
+	if os.Getenv("VERIF_C10_MARKS") == "1" {
+		vh10Desync(t, o, id)
 		id++
 	}
 	// (e) fid discipline: fixed corpus, then random scripts
